@@ -213,6 +213,10 @@ func (t *TCCServiceProxy) getOrCreateBusinessActionContext(params interface{}) *
 	n := typ.NumField()
 	for i := 0; i < n; i++ {
 		sf := typ.Field(i)
+		// reflect cannot hand out the value of an unexported field
+		if sf.PkgPath != "" {
+			continue
+		}
 		if sf.Type == rm.TypBusinessContextInterface {
 			// a nil *BusinessActionContext field is "not set": an interface holding it is not nil
 			if v, ok := val.Field(i).Interface().(*tm.BusinessActionContext); ok && v != nil {
